@@ -187,8 +187,16 @@ func execMT(p *MTPlan, rc *simkit.RunCtx) {
 					kk := k
 					go func() {
 						_ = fn(context.Background())
-						for i := 0; i < p.Subs[kk].Done; i++ {
-							d()
+						// repeated calls, sequentially and from concurrent goroutines
+						n := p.Subs[kk].Done
+						if n >= 3 {
+							for i := 0; i < n; i++ {
+								go d()
+							}
+						} else {
+							for i := 0; i < n; i++ {
+								d()
+							}
 						}
 						if p.Subs[kk].Done > 1 {
 							rc.Probe("done-called-repeatedly")
